@@ -14,7 +14,7 @@ LEVEL = "model_checking"
 
 
 def configs(tier):
-    cs = [(c, p) for c in sorted(wcommon.SPEC_DECODABLE) for p in ((64, 1 << 20) if tier == "quick" else (64, 128, 4096, 1 << 20))]
+    cs = [(c, p) for c in sorted(wcommon.SPEC_DECODABLE) for p in ((64, 128, 1 << 20) if tier == "quick" else (64, 128, 4096, 1 << 20))]
     return cs
 
 
